@@ -27,7 +27,11 @@ LEVEL_TEXT = ("Generated graph-colouring-like DCOPs with 4-6 variables on a conn
               "original computation is registered in the directory on exactly one agent, which is a survivor; "
               "exactly one live agent object hosts it and it is that agent; a re-hosted computation's new host held "
               "its replica before the event; the repair status written by the orchestrator is OK only if all of "
-              "that holds. Thread interleavings are perturbed, not enumerated.")
+              "that holds. Thread interleavings are perturbed, not enumerated. "
+              "One shard runs a second target instead: the real Directory and Discovery objects on SimNet, driven through "
+              "the publications of re-hostings (former host un-publishes under its own name, new host publishes, one "
+              "re-hosting per computation and event, events separated by a drain) under generated delivery orders; oracle: "
+              "the directory and every surviving subscriber end up naming the new host.")
 LEVEL_NOTE = ("Trusted: the snapshot logic in this file (reads of other threads' dictionaries after a settle delay). "
               "A run costs 3-8 s, so the number of fault sequences explored is small; C25 and C26 explore replication "
               "and the repair constraints densely and deterministically.")
